@@ -21,9 +21,17 @@ type pathEnd struct {
 
 // GoPanic is a run-time panic of the interpreted program.
 type GoPanic struct {
-	Val   Value
-	Msg   string
-	Stack []string
+	Val     Value
+	Msg     string
+	Stack   []string
+	Runtime bool // raised by the run time (index out of range, nil dereference, failed assertion), not by panic(v)
+	Exit    bool // os.Exit: ends the process, deferred calls do not run
+}
+
+// panicState is a Go panic that is unwinding through frames with deferred calls.
+type panicState struct {
+	gp        *GoPanic
+	recovered bool
 }
 
 func (p *GoPanic) Error() string { return p.Msg }
@@ -53,6 +61,7 @@ type Ctx struct {
 	budget   Budget
 	stack    []string
 
+	panics  []*panicState
 	globals map[*ssa.Global]*Value
 	inited  map[*ssa.Package]bool
 	FS      *VFS
